@@ -5,6 +5,7 @@ evaluator(src, opts, rank) -> (status, sig, nontrivial, labels)
 Failures are matched against the committed exact rank sets (findings.Known); unmatched ones are
 minimised (ddmin) and become violations."""
 import importlib
+import os
 import random
 
 from . import pool, universes
@@ -82,7 +83,10 @@ def run_universes(run, evaluator_path, plan, tier, seed, opts=None, chunk=200, m
     all_exh = True
     unmatched = {}
     first = first or {}
+    skip = set(filter(None, os.environ.get("VERIF_SKIP_UNIVERSES", "").split(",")))
     for uname, qn in plan.items():
+        if uname.split("/")[0] in skip:
+            continue
         ranks, exh = plan_ranks(uname, tier, seed, qn, first.get(uname, 0))
         all_exh &= exh
         jobs = [(evaluator_path, uname, c, opts) for c in pool.chunks(ranks, chunk)]
